@@ -26,7 +26,8 @@ REQUIRED = ["assort_pairs_compared", "assort_pairs_nontrivial", "exhaustive_tabl
             "reader_files", "reapplied_NEB", "reapplied_NEN", "ballots_lacking_contest_compared", "ballots_on_a_reused_record", "reader_files_with_non_ascii_names",
             "contest_identifier_is_not_a_string", "ballot_mappings_not_stored_in_preference_order",
             "ballots_listing_unranked_candidates_with_rank_0", "assorter_means_compared_with_generator_tallies",
-            "assorter_means_compared:some_cards_lack_the_contest"]
+            "assorter_means_compared:some_cards_lack_the_contest",
+            "reader_files_where_a_candidate_shares_its_name_with_the_contest_or_ballot"]
 ASSUMPTIONS = ["rankings are duplicate-free (the property's quantifier)", "candidate ids are strings in both readers",
                "JSON mapping per the RAIRE documentation: WINNER_ONLY <-> NEB, IRV_ELIMINATION + already_eliminated <-> NEN"]
 EXHAUSTIVE = "c14.assort enumerates every partial ranking x ordered pair x eliminated set for each n listed in the counters"
@@ -160,6 +161,11 @@ def gen_file(rng):
         names = ["José", "Zoë", "Ñu", "Łukasz", "Åsa", "李"]
         cands = {c: [names[(j + k) % len(names)] + (str(k) if k >= len(names) else "") for k in range(len(v))]
                  for j, (c, v) in enumerate(cands.items())}
+    small = rng.random() < 0.2
+    if small:
+        # contests, candidates and ballots each numbered from 1: one token names a contest, a candidate and a ballot
+        cons = [str(j + 1) for j in range(ncon)]
+        cands = {c: [str(k + 1) for k in range(rng.randint(2, 5))] for c in cons}
     lines = [str(ncon)]
     for c in cons:
         listed = cands[c][:]
@@ -171,7 +177,7 @@ def gen_file(rng):
     nb = rng.randint(1, 14)
     body = []
     for j in range(nb):
-        bid = f"99808_{rng.randint(1, 3)}_{j}"
+        bid = str(j + 1) if small else f"99808_{rng.randint(1, 3)}_{j}"
         for c in rng.sample(cons, rng.randint(1, ncon)):
             k = rng.randint(0, len(cands[c]))
             body.append(",".join([c, bid] + rng.sample(cands[c], k)))
@@ -198,6 +204,8 @@ def run_file(case, rec):
             f.write("\n".join(lines) + "\n")
         if any(ord(ch) > 127 for ln in lines for ch in ln):
             rec.count("reader_files_with_non_ascii_names")
+        if any(t[0] in t[2:] or t[1] in t[2:] for t in (ln.split(",") for ln in lines[1 + int(lines[0]):])):
+            rec.count("reader_files_where_a_candidate_shares_its_name_with_the_contest_or_ballot")
         ok1, r1 = rec.guard("c14.call:from_raire_file", CVR.from_raire_file, path)
         ok2, r2 = rec.guard("c14.call:load_contests_from_raire", load_contests_from_raire, path)
     finally:
